@@ -564,6 +564,35 @@ func (node *mastNode) seekIter(ctx context.Context, idx int, f func(interface{},
 	return nil
 }
 
+// seekIterFrom iterates in order over the entries of this subtree whose key is
+// not smaller than k, whether or not k itself is present.
+func (node *mastNode) seekIterFrom(ctx context.Context, k interface{}, f func(interface{}, interface{}) error, m *Mast) error {
+	var err error
+	i := sort.Search(len(node.Key), func(i int) bool {
+		if err != nil {
+			return true
+		}
+		var cmp int
+		cmp, err = m.keyOrder(node.Key[i], k)
+		return cmp >= 0
+	})
+	if err != nil {
+		return fmt.Errorf("keyCompare: %w", err)
+	}
+	// the subtree left of Key[i] may hold lower-layer keys that are >= k
+	if node.Link[i] != nil {
+		child, err := m.load(ctx, node.Link[i])
+		if err != nil {
+			return err
+		}
+		err = child.seekIterFrom(ctx, k, f, m)
+		if err != nil {
+			return err
+		}
+	}
+	return node.seekIter(ctx, i, f, m)
+}
+
 func validateNode(ctx context.Context, node *mastNode, mast *Mast) {
 	if debugMutation && node.expected != nil {
 		if !reflect.DeepEqual(node.expected.Key, node.Key) {
